@@ -238,7 +238,9 @@ REF_OPS = [("set", "s1"), ("set", "bx"), ("set", "rh"), ("disconnect", None), ("
            # a connect-by-call that fails part-way (its second argument is not connectable), is caught, and is followed by more edits
            ("badcall", "rh"), ("badcall", "s1"),
            # a slip of the pen - a bundle member / a port of h1 that does not exist - which a later `set` corrects
-           ("settypo", "bundle"), ("settypo", "port")]
+           ("settypo", "bundle"), ("settypo", "port"),
+           # an instance tied to the same object that never becomes part of the module, or is replaced under its name
+           ("stray", "never_added"), ("stray", "replaced_by_name")]
 REF_VALS = {"s1": sig("s1"), "bx": bref("b1", "x"), "rh": pref("h1", "a")}
 # the same exploration on a bundle-valued port: bundle instance, anonymous bundle, reference to another instance's bundle port
 REF_VALS_T = {"s1": b("bA"), "bx": anon(x=sig("s1"), y=sig("vv")), "rh": pref("h1", "t")}
@@ -299,7 +301,8 @@ def ref_design(final, mode="a"):
     decls.append(("inst", "h0", ("mod", "Child1"), h0))
     decls.append(("inst", "h2", ("mod", "Child1"), h2))
     top = {"name": "Top", "style": "proc", "decls": decls}
-    return {"bundles": BUND, "exts": exts, "modules": {"Child1": child, "Top": top}, "top": "Top"}, tie
+    stray = dict(child, name="Stray1")  # a cell with the same ports that the design itself never instantiates
+    return {"bundles": BUND, "exts": exts, "modules": {"Child1": child, "Stray1": stray, "Top": top}, "top": "Top"}, tie
 
 
 def _ref_one(item):
@@ -338,6 +341,14 @@ def _ref_one(item):
                     return dict(kind="op", detail="replace() of an unconnected port did not raise")
                 except KeyError:
                     pass
+            elif op[0] == "stray":
+                cur = i.conns.get(port)
+                v = cur if cur is not None else objs["s1"]
+                stray = built.modules["Stray1"](**{port: v})
+                if op[1] == "replaced_by_name":
+                    built.top.zz_tmp = stray
+                    built.top.zz_tmp = h.Signal()
+                continue
             elif op[0] == "settypo":
                 bad = getattr(ns["b1" if mode == "a" else "bA"], "no_such_member") if op[1] == "bundle" else getattr(ns["h1"], "no_such_port")
                 setattr(i, port, bad)
